@@ -1398,3 +1398,50 @@ B('c08-has-jobs-never', 'C08', 'R08.a', JOBS,
   "    def get_current(self):\n        return self._active_agent if self._active_agent else None")
 B('c15-cells-sanitised-before-convert', 'C15', 'R15.e', MACHINE,
   "            (xform_fn(color) for color in srce.as_list()))", "            (xform_fn(color) for color in srce.get_colors()))")
+# ---- round 2 strengthening
+B('c15-default-operand-not-set', 'C15', 'R15.f', PARSE,
+  "        self._add_instruction(OpCode.MOVEQ, Operand.DEFAULT, Register.OPERAND)\n", "")
+B('c15-all-operand-not-set', 'C01', 'R15.f', PARSE,
+  "        self._add_instruction(OpCode.MOVEQ, Operand.ALL, Register.OPERAND)\n", "")
+B('c15-operand-set-only-for-zones', 'C15', 'R15.f', PARSE,
+  "        self._add_instruction(OpCode.MOVEQ, operand, Register.OPERAND)\n        return True",
+  "        if operand is not Operand.LIGHT:\n            self._add_instruction(OpCode.MOVEQ, operand, Register.OPERAND)\n        return True")
+N('c15-matrix-operand-set-by-caller', 'C15', MPARSER,
+  """            return self._inline_operand()
+
+    def get_all""", """            self.code_gen.add_instruction(
+                OpCode.MOVEQ, Operand.MATRIX, Register.OPERAND)
+            return self._inline_operand()
+
+    def get_all""",
+  MPARSER, """    def _inline_operand(self) -> bool:
+        self.code_gen.add_instruction(
+            OpCode.MOVEQ, Operand.MATRIX, Register.OPERAND)
+""", """    def _inline_operand(self) -> bool:
+""")
+B('c11-two-clock-readings', 'C11', 'R11.g', CLOCK,
+  "        now = datetime.now()\n        return (now.hour, now.minute)",
+  "        return (datetime.now().hour, datetime.now().minute)")
+B('c11-hour-minute-separately', 'C11', 'R11.g', CLOCK,
+  "            hour, minute = Clock._hour_minute()\n        self.reset()",
+  "            hour = Clock._hour_minute()[0]\n            minute = Clock._hour_minute()[1]\n        self.reset()")
+N('c11-reading-through-locals', 'C11', CLOCK,
+  "        now = datetime.now()\n        return (now.hour, now.minute)",
+  "        t = datetime.now()\n        h = t.hour\n        m = t.minute\n        return h, m")
+B('c09-clock-stopped-before-flag', 'C09', 'R09.a', MACHINE,
+  "        self._keep_running = False\n        self._clock.stop()",
+  "        self._clock.stop()\n        self._keep_running = False")
+B('c04-discm-no-none-test', 'C04', 'R04.g', VMDISC,
+  "        if name_list and len(name_list) > 0:", "        if len(name_list) > 0:")
+B('c04-dnextm-no-none-test', 'C04', 'R04.g', VMDISC,
+  "        if name_list is None:\n            # The group or location disappeared during the iteration.\n            self._reg.result = Operand.NULL\n        elif not", "        if not")
+B('c01-loop-frame-own-params', 'C01', 'R03.c', CALLSTACK,
+  "        self.params = parent.params\n", "")
+B('c19-unnamed-class-level', 'C19', 'R19.e', VMIO,
+  "class VmIo:\n    def __init__(self, call_stack, reg):", "class VmIo:\n    _unnamed = []\n\n    def __init__(self, call_stack, reg):",
+  VMIO, "        self._reg = reg\n        self._unnamed = []\n", "        self._reg = reg\n")
+B('c17-unnamed-class-level', 'C17', 'R17.b', VMIO,
+  "class VmIo:\n    def __init__(self, call_stack, reg):", "class VmIo:\n    _unnamed = []\n\n    def __init__(self, call_stack, reg):",
+  VMIO, "        self._reg = reg\n        self._unnamed = []\n", "        self._reg = reg\n")
+N('c19-unnamed-class-default-rebound', 'C19', VMIO,
+  "class VmIo:\n    def __init__(self, call_stack, reg):", "class VmIo:\n    _unnamed = []\n\n    def __init__(self, call_stack, reg):")
